@@ -41,7 +41,7 @@ func main() {
 			fmt.Fprintln(os.Stderr, "-dir is required")
 			os.Exit(2)
 		}
-		na, np, nv := 20000, 7, 4
+		na, np, nv := 14000, 6, 5
 		if *tier == "thorough" {
 			na, np, nv = 120000, 40, 6
 		}
